@@ -1916,10 +1916,10 @@ void is_list_loose(token * list) {
 				walker = walker->child;
 
 				while (walker->next != NULL) {
-					if (walker->type == BLOCK_EMPTY) {
-						if (walker->next->type == BLOCK_PARA) {
-							loose = true;
-						}
+					// A further paragraph in the item makes it loose -- also when the
+					// blank line before it was absorbed by a nested list or quote
+					if (walker->next->type == BLOCK_PARA) {
+						loose = true;
 					}
 
 					walker = walker->next;
